@@ -163,30 +163,35 @@ func listLocal(dir string) (present bool, fields []string) {
 	fields = append(fields, I(int64(len(ents))))
 	for _, e := range ents {
 		fields = append(fields, HS(e.Name()))
-		span := false
+		span, endOnly := false, false
 		var b, en time.Time
 		counts := false
 		if strings.HasSuffix(e.Name(), ".v1.count") {
 			data, err := os.ReadFile(filepath.Join(dir, "local", e.Name()))
 			if err == nil {
 				if pf, err := counter.Parse(e.Name(), data); err == nil {
-					tb, ok1 := pf.Meta["TimeBegin"]
-					te, ok2 := pf.Meta["TimeEnd"]
-					if ok1 && ok2 {
-						var e1, e2 error
+					var e1, e2 error = fmt.Errorf("missing"), fmt.Errorf("missing")
+					if tb, ok := pf.Meta["TimeBegin"]; ok {
 						b, e1 = time.Parse(time.RFC3339, tb)
-						en, e2 = time.Parse(time.RFC3339, te)
-						span = e1 == nil && e2 == nil
 					}
+					if te, ok := pf.Meta["TimeEnd"]; ok {
+						en, e2 = time.Parse(time.RFC3339, te)
+					}
+					span = e1 == nil && e2 == nil
+					endOnly = e1 != nil && e2 == nil // collection time unknown, end readable
 					counts = len(pf.Count) > 0
 				}
 			}
 		}
-		if span {
+		switch {
+		case span:
 			bs, bn := splitNs(b)
 			es, en2 := splitNs(en)
 			fields = append(fields, "span", bs, bn, es, en2, B(counts))
-		} else {
+		case endOnly:
+			es, en2 := splitNs(en)
+			fields = append(fields, "endonly", es, en2, B(counts))
+		default:
 			fields = append(fields, "nospan", B(counts))
 		}
 	}
@@ -291,6 +296,7 @@ type scen struct {
 	ends     []time.Time
 	asof     time.Time // zero: none chosen
 	modeWord string
+	lastName string // path of the count file written last
 }
 
 func newScen() *scen {
@@ -332,9 +338,48 @@ func (s *scen) countFile(now time.Time, ncounters int, prog string) {
 	for i := 0; i < ncounters; i++ {
 		f.NewCounter(fmt.Sprintf("vh/c%d", i)).Add(int64(1 + i))
 	}
+	s.lastName = f.CurrentName()
 	f.Close()
 	s.begins = append(s.begins, b)
 	s.ends = append(s.ends, e)
+}
+
+// damageMeta edits the metadata of the most recently written count file in
+// place (same length, so the header stays well-formed): the TimeBegin / TimeEnd
+// key is misspelt or its value made unparsable.
+func (s *scen) damageMeta(name string, what string) {
+	data, err := os.ReadFile(name)
+	if err != nil {
+		panic(err)
+	}
+	key := []byte(what + ": ")
+	i := bytes.Index(data[:600], key)
+	if i < 0 {
+		panic("no " + what + " in " + name)
+	}
+	switch rnd.Intn(3) {
+	case 0:
+		data[i+len(what)-1] = 'X' // TimeBegiX: the key is missing
+		out.Note("damaged-" + what + "-key")
+	case 1:
+		data[i+len(key)] = 'x' // x024-...: not RFC3339
+		out.Note("damaged-" + what + "-value")
+	default:
+		data[i+len(key)+10] = ' ' // date and time no longer joined by T
+		out.Note("damaged-" + what + "-value")
+	}
+	if err := os.WriteFile(name, data, 0666); err != nil {
+		panic(err)
+	}
+}
+
+func safeNote(s string) string {
+	return strings.Map(func(r rune) rune {
+		if r < 33 || r > 126 {
+			return '?'
+		}
+		return r
+	}, s)
 }
 
 func dateStr(t time.Time) string { return t.UTC().Format("2006-01-02") }
@@ -407,9 +452,9 @@ func (s *scen) chooseMode(ref, refEnd time.Time, exact bool) {
 	s.asof = asof
 	word := "on"
 	switch r := rnd.Intn(20); {
-	case r < 11:
+	case r < 10:
 		word = "on"
-	case r < 13:
+	case r < 12:
 		word = "local"
 	case r < 15:
 		word = "off"
@@ -743,6 +788,16 @@ func caseScenario() {
 			out.Note("count-file-without-counters")
 		}
 		s.countFile(t, nc, progs[i])
+		if nfiles > 1 && progs[0] != "vh" {
+			// a count file whose collection time is unknown / whose end is unreadable,
+			// next to healthy files of the same week
+			switch rnd.Intn(10) {
+			case 0, 1:
+				s.damageMeta(s.lastName, "TimeBegin")
+			case 2:
+				s.damageMeta(s.lastName, "TimeEnd")
+			}
+		}
 		step := time.Duration(1+rnd.Intn(4)) * 24 * time.Hour
 		if oneWeek {
 			// the week ends 1..7 days after the first begin: stay before that end when possible
@@ -802,6 +857,21 @@ func caseScenario() {
 		s.leftovers(start, refEnd)
 	}
 	s.uploadDir(start, refEnd)
+	if nfiles > 0 && rnd.Intn(4) == 0 {
+		// the week of the count files already has its report: uploaded, or waiting
+		// in local/ -- notNeeded then removes the week's count files
+		wk := dateStr(s.ends[rnd.Intn(nfiles)])
+		if rnd.Intn(3) > 0 {
+			os.MkdirAll(filepath.Join(s.dir, "upload"), 0777)
+			os.WriteFile(filepath.Join(s.dir, "upload", wk+".json"), []byte("{}"), 0666)
+			out.Note("week-already-uploaded")
+			out.Note("week-already-uploaded-mode-" + safeNote(s.modeWord))
+		} else {
+			s.ensureLocal()
+			os.WriteFile(filepath.Join(s.dir, "local", wk+".json"), []byte(`{"Week":"`+wk+`"}`), 0666)
+			out.Note("week-report-already-waiting")
+		}
+	}
 	if rnd.Intn(8) == 0 {
 		os.MkdirAll(filepath.Join(s.dir, "debug"), 0777)
 		out.Note("debug-dir-present")
@@ -1113,6 +1183,24 @@ func caseRotate() {
 		B(ch1), I(int64(cr1)), B(ch2), I(int64(cr2)), B(ch3), I(int64(cr3)), B(ch4), I(int64(cr4)))
 }
 
+// guard runs one case with a watchdog: if the real code does not come back the
+// case is written as "hang" (a PROP for the runner) and the harness ends cleanly.
+func guard(what string, i int, fn func()) {
+	done := make(chan struct{})
+	go func() {
+		defer close(done)
+		fn()
+	}()
+	select {
+	case <-done:
+	case <-time.After(60 * time.Second):
+		out.Note("hang")
+		out.Case(true, "hang", HS(what), I(int64(i)))
+		out.Close()
+		os.Exit(0)
+	}
+}
+
 func main() {
 	if os.Getenv("VH_CHILD") != "" {
 		childMain()
@@ -1131,15 +1219,16 @@ func main() {
 	srv = newServer()
 	defer srv.srv.Close()
 	for i := 0; i < n; i++ {
+		i := i
 		switch {
 		case i < 3:
-			caseSentinel(i)
+			guard("sentinel", i, func() { caseSentinel(i) })
 		case i%40 == 7:
-			caseChild()
+			guard("child", i, caseChild)
 		case i%8 == 3:
-			caseRotate()
+			guard("rotate", i, caseRotate)
 		default:
-			caseScenario()
+			guard("scenario", i, caseScenario)
 		}
 	}
 	out.Close()
